@@ -347,7 +347,15 @@ pub fn agent_run(ctx: &mut Ctx, hist: &History, w: &World, junos: Junos, irr_ref
     let delays = vec![0, 0, 0, 1, 3, 20, 200];
     let (result, junos) = with_shared(ctx, junos, delays, |sh| {
         let conn = connector(sh.clone());
-        let r = hist.rt.block_on(async move { agent::verif::run_once(conn, "irrd.sim", 43, &instance).await });
+        // a panic of the agent outside its spawned tasks ends the process: for the oracles that is a
+        // run that failed without a clean error ("the agent panicked: ...")
+        let r = match std::panic::catch_unwind(std::panic::AssertUnwindSafe(|| hist.rt.block_on(async move { agent::verif::run_once(conn, "irrd.sim", 43, &instance).await }))) {
+            Ok(r) => r,
+            Err(p) => {
+                let msg = p.downcast_ref::<String>().cloned().or_else(|| p.downcast_ref::<&str>().map(|s| (*s).to_string())).unwrap_or_default();
+                Err(anyhow::anyhow!("the agent panicked: {msg}"))
+            }
+        };
         // tokio task ids are process-global counters: mask every "task <n>"
         r.map_err(|e| {
             let s = format!("{e:#}");
@@ -679,10 +687,11 @@ pub fn oracle_c15(w: &World, obs: &RunObs) -> Result<(), (String, String)> {
 // scenario
 // ---------------------------------------------------------------------------------------------
 
-const FAULTS: [FaultKind; 11] = [
+const FAULTS: [FaultKind; 12] = [
     FaultKind::RpcError,
     FaultKind::LoadErrorInResults,
     FaultKind::LoadErrorThenOk,
+    FaultKind::OkThenError,
     FaultKind::Malformed,
     FaultKind::Truncated,
     FaultKind::UnknownId,
@@ -720,6 +729,8 @@ fn history(ctx: &mut Ctx, focus: Focus) -> Verdict {
         let fault_runs = match focus {
             Focus::C04 => true,
             Focus::C02 => ctx.chance(1, 3),
+            // "when a run reports success ..." must also hold for runs that met a fault
+            Focus::C01 => ctx.chance(1, 4),
             Focus::C03 => {
                 irr_refuse = ctx.chance(1, 12);
                 false
@@ -774,7 +785,7 @@ fn history(ctx: &mut Ctx, focus: Focus) -> Verdict {
             }
         }
         // a run that fails without any injected fault and with every policy evaluable is C01's business
-        if focus == Focus::C01 && obs.result.is_err() && !irr_refuse {
+        if focus == Focus::C01 && obs.result.is_err() && !irr_refuse && !fault_runs {
             let exp = expectations(&w);
             let blameless = exp.values().all(|e| matches!(e, Expect::Target(..)));
             if blameless {
@@ -1057,12 +1068,12 @@ macro_rules! agent_spec {
 }
 
 agent_spec!(C01, "C01", run_c01, "exploration", 20_000, 1_000_000, PLAN_CASES_PER_POLICY * PLAN_CASES_PER_POLICY,
-    "enumerated (8100 cases): for two policies at once (one with XML metacharacters in its name), every pair of {absent, installed with any subset of a 2+1 range universe} x {not a candidate, evaluation failed, evaluated to any subset} through the real reader -> compare -> update writer, applied to the router model: convergence, no stale policy, untouched on failure, read-back, idempotence. seeded: a history of 1-4 (thorough: 1-6) consecutive real agent runs against one FakeJunos + FakeIrrd, starting from an empty ephemeral instance; between runs the world mutates (routes appear/disappear, a family of an AS vanishes, set membership changes, policies lose the annotation / are deactivated / removed / renamed / get a new expression / are added); policy names occasionally contain XML metacharacters, quotes and non-ASCII; seeded virtual delays on every send and reply, seeded hash order, seeded IRR read segmentation. After every successful run: committed accept-set per family == reference set, final reject, no stale policy, read-back through the agent's own reader; finally one more run with unchanged inputs must succeed and change nothing. Non-trivial = at least one load-configuration was sent; distinct = distinct event-log hash");
+    "enumerated (8100 cases): for two policies at once (one with XML metacharacters in its name), every pair of {absent, installed with any subset of a 2+1 range universe} x {not a candidate, evaluation failed, evaluated to any subset} through the real reader -> compare -> update writer, applied to the router model: convergence, no stale policy, untouched on failure, read-back, idempotence. seeded: a history of 1-4 (thorough: 1-6) consecutive real agent runs against one FakeJunos + FakeIrrd, starting from an empty ephemeral instance; between runs the world mutates (routes appear/disappear, a family of an AS vanishes, set membership changes, policies lose the annotation / are deactivated / removed / renamed / get a new expression / are added); policy names occasionally contain XML metacharacters, quotes and non-ASCII; seeded virtual delays on every send and reply, seeded hash order, seeded IRR read segmentation; one run in four meets a NETCONF fault at a seeded request position (it may fail, but if it reports success it must have converged). After every successful run: committed accept-set per family == reference set, final reject, no stale policy, read-back through the agent's own reader; finally one more run with unchanged inputs must succeed and change nothing. Non-trivial = at least one load-configuration was sent; distinct = distinct event-log hash");
 agent_spec!(C02, "C02", run_c02, "exploration", 20_000, 1_000_000, PLAN_CASES_PER_POLICY * PLAN_CASES_PER_POLICY,
     "enumerated: the 8100 (installed, evaluated) cases of C01, each planned update applied on its own to the fetched state. seeded: the C01 histories, one run in three with a NETCONF fault injected at a seeded request position (so that runs abort after any prefix of the update sequence); the oracle is evaluated on the model's working copy after every single load-configuration: every accepting term is restricted to inet or inet6, has at least one route-filter, all its route-filters belong to the reference set of that family, the policy ends in reject; element paths of every payload stay below configuration/policy-options/policy-statement; only the six expected operations are used and exactly the configured ephemeral instance is opened");
 agent_spec!(C03, "C03", run_c03, "fault_enumeration", 20_000, 1_000_000, 0,
     "histories biased towards managed policies whose data is unobtainable: unknown as-set, error response (F / E / D) to the as-set members query, IRRd refusing the connection, annotations with the bgpfu-fltr prefix that do not parse; installed state present or absent, mutations make annotations unparseable between runs. Oracle: no update or delete names such a policy and its installed state is unchanged; deletes name only policies that are not marked as managed");
 agent_spec!(C04, "C04", run_c04, "fault_enumeration", 20_000, 1_000_000, 0,
-    "1-2 runs per history with 1-2 faults at seeded positions of the request sequence open -> get-config x2 -> load x N -> commit -> close-configuration -> close-session; fault kinds: rpc-error, error inside load-configuration-results, error followed by <ok/>, malformed reply, truncated reply, unknown message-id, another outstanding request's message-id, duplicated reply, close before the reply, close after the reply, and (non-fault) warning followed by <ok/>; reply delays let a failing load reply arrive after later loads were sent. Oracle on the per-session request log: commit only after open and every load were positively acknowledged and delivered, never after a failed step; fault => run fails; success => commit, close-configuration and close-session acknowledged");
+    "1-2 runs per history with 1-2 faults at seeded positions of the request sequence open -> get-config x2 -> load x N -> commit -> close-configuration -> close-session; fault kinds: rpc-error, error inside load-configuration-results, error followed by <ok/>, the positive indication followed by an error, malformed reply, truncated reply, unknown message-id, another outstanding request's message-id, duplicated reply, close before the reply, close after the reply, and (non-fault) warning followed by <ok/>; reply delays let a failing load reply arrive after later loads were sent. Oracle on the per-session request log: commit only after open and every load were positively acknowledged and delivered, never after a failed step; fault => run fails; success => commit, close-configuration and close-session acknowledged");
 agent_spec!(C15, "C15", run_c15, "exploration", 20_000, 1_000_000, 0,
     "1-5 (thorough: 1-10) managed policies of which some are unevaluable: unknown as-set, IRR error response, PeerAS, AS-path regular expression, community match; all hash orders. Oracle: the run succeeds, every evaluable policy reaches its reference set and is committed, the unevaluable ones are untouched. The violation class names the kind of unevaluable member present");
